@@ -1,6 +1,6 @@
 (** C10 — Metadata writes require the signatures that the party rules demand.
     Only theorem statements here; each is closed by [exact] of a lemma proved in
-    Proofs/SignersProofs{,2,3}.v about the model Metadata/Signers.v (transcription of
+    Proofs/SignersProofs{,2,3,4,5,6}.v and Proofs/AuthzCountProofs.v about the model Metadata/Signers.v (transcription of
     x/metadata/keeper/signers.go and of the callers in scope.go / session.go / record.go).
     The declarative vocabulary ([covered], [role_assignment], [provenance_rule], [contract_rule],
     [stands_for_party], [is_party_signer], the documented endpoint table) is Metadata/SignersSpec.v.
@@ -10,8 +10,9 @@
     hand; count-limited authorizations and scope value owners are outside (see the model header). *)
 From Coq Require Import ZArith List Bool.
 Import ListNotations.
-From PV Require Import Metadata.Signers Metadata.SignersSpec
-  Proofs.SignersProofs Proofs.SignersProofs2 Proofs.SignersProofs3.
+From PV Require Import Metadata.Signers Metadata.SignersSpec Metadata.AuthzCount
+  Proofs.SignersProofs Proofs.SignersProofs2 Proofs.SignersProofs3 Proofs.SignersProofs4
+  Proofs.SignersProofs5 Proofs.SignersProofs6 Proofs.AuthzCountProofs.
 Open Scope Z_scope.
 
 (** Soundness of ValidateSignersWithParties: an accepted message accounts, by a signer or by an
@@ -142,6 +143,191 @@ Theorem C10_checker_decides_assignment : forall e signers avail roles,
 Proof. exact roles_signed_b_spec. Qed.
 Print Assumptions C10_checker_decides_assignment.
 
+(** ** The endpoints, completeness.  For each endpoint that runs validateSmartContractSigners
+    (MsgWriteScope new / existing, MsgDeleteScope, MsgAdd/DeleteScopeOwner, MsgWriteSession new /
+    existing, MsgWriteRecord incl. a record moving between sessions, MsgDeleteRecord,
+    MsgAdd/DeleteScopeDataAccess; rollup on and off): when the message is well formed, every party
+    the documented table names signs DIRECTLY ([doc_direct_P]: all owners / parties without rollup;
+    with rollup all non-optional parties of the lists the table names, and an injective assignment
+    of the required-role entries to directly signing parties of that role; the roles the new
+    owners / parties must provide are present; PROVENANCE rule), and every smart-contract signer
+    has only smart contracts before it and is itself one of those parties or is not last and holds
+    a grant from every signer after it, then the message is ACCEPTED. *)
+Theorem C10_endpoints_complete_direct : forall e op signers,
+  doc_wellformed op = true -> enforces_contract_rule op = true ->
+  doc_direct_P e op signers ->
+  contract_rule e (doc_used is_party_signer op) signers ->
+  outer_accept e op signers = true.
+Proof. exact outer_complete_direct. Qed.
+Print Assumptions C10_endpoints_complete_direct.
+
+(** Every endpoint (MsgUpdateValueOwners included) when no smart contract signs. *)
+Theorem C10_endpoints_complete_direct_no_contract : forall e op signers,
+  doc_wellformed op = true ->
+  (forall s, In s signers -> is_wasm e s = false) ->
+  doc_direct_P e op signers ->
+  outer_accept e op signers = true.
+Proof. exact outer_complete_direct_no_contract. Qed.
+Print Assumptions C10_endpoints_complete_direct_no_contract.
+
+(** The same statement unfolded for one row of the table, so that its shape is visible: a record
+    written into session [session] while it currently sits in session [old], party rollup on. *)
+Theorem C10_record_move_complete_direct : forall e owners session old roles signers,
+  role_assignment (fun a => In a signers) session roles ->
+  (forall p, In p owners -> p_opt p = false -> In (p_addr p) signers) ->
+  (forall p, In p session -> p_opt p = false -> In (p_addr p) signers) ->
+  (forall p, In p old -> p_opt p = false -> In (p_addr p) signers) ->
+  provenance_rule e session ->
+  (forall s, In s signers -> is_wasm e s = false) ->
+  outer_accept e (OWriteRecord true owners session (Some old) roles) signers = true.
+Proof. exact record_move_complete_direct. Qed.
+Print Assumptions C10_record_move_complete_direct.
+
+(** ** The endpoints, smart-contract rule: on every endpoint that runs
+    validateSmartContractSigners an accepted message has every smart-contract signer preceded by
+    smart contracts only, and the signer either stands for one of the parties whose signature the
+    endpoint's row of the table looks at ([doc_parties]) — directly or through that party's
+    grant — or is not last and holds a grant from every signer after it. *)
+Theorem C10_endpoints_contract_rule : forall e op signers,
+  outer_accept e op signers = true -> enforces_contract_rule op = true ->
+  contract_rule e (doc_used (stands_for_party e) op) signers.
+Proof. exact outer_contract_rule. Qed.
+Print Assumptions C10_endpoints_contract_rule.
+
+(** The executable table the correspondence run evaluates on the implementation's answers holds of
+    every message the model accepts ([doc_sound]: coverage, signed injective role assignment,
+    roles present in the proposed parties, PROVENANCE rule, contract positions — the whole row),
+    and its completeness half ([doc_direct]) implies acceptance by the model. *)
+Theorem C10_endpoints_checker_sound : forall e op signers,
+  outer_accept e op signers = true -> doc_sound e op signers = true.
+Proof. exact outer_doc_sound. Qed.
+Print Assumptions C10_endpoints_checker_sound.
+
+Theorem C10_endpoints_checker_complete : forall e op signers,
+  doc_direct e op signers = true -> outer_accept e op signers = true.
+Proof. exact doc_direct_sound. Qed.
+Print Assumptions C10_endpoints_checker_complete.
+
+(** ** MsgUpdateValueOwners (signer part): every current value owner is one of the signers that
+    count — all of them, or only the first one when that is a smart contract — or has granted the
+    message type to one of them; none of them is the proposed owner. *)
+Theorem C10_update_value_owners_sound : forall e vos proposed signers,
+  outer_accept e (OUpdateValueOwners vos proposed) signers = true ->
+  vos <> [] /\
+  (forall o, In o vos -> exists a, o = Some a /\ a <> proposed /\
+                                   covered e (vo_signers e signers) a).
+Proof. exact update_value_owners_sound. Qed.
+Print Assumptions C10_update_value_owners_sound.
+
+Theorem C10_update_value_owners_contract_first : forall e vos proposed c rest,
+  outer_accept e (OUpdateValueOwners vos proposed) (c :: rest) = true ->
+  is_wasm e c = true ->
+  forall a, In (Some a) vos -> a = c \/ granted e a c = true.
+Proof. exact update_value_owners_contract_first. Qed.
+Print Assumptions C10_update_value_owners_contract_first.
+
+(** OBSERVATIONS about MsgUpdateValueOwners (outside the property's endpoints; findings/C10.md):
+    the position rule is not enforced there, and "A smart contract cannot be used to change the
+    value owner of a scope unless the smart contract is the value owner itself" fails literally
+    when the value owner has granted to the contract; and because every never-used account passes
+    for a smart contract, a value owner that signs first can silence the other value owners'
+    direct signatures (the order of the signers decides). *)
+Theorem C10_update_value_owners_no_position_rule :
+  exists e vos proposed signers,
+    outer_accept e (OUpdateValueOwners vos proposed) signers = true /\
+    ~ contract_rule e (fun _ => True) signers.
+Proof. exact update_value_owners_no_position_rule. Qed.
+Print Assumptions C10_update_value_owners_no_position_rule.
+
+Theorem C10_update_value_owners_contract_literal_refuted :
+  exists e vos proposed signers c,
+    outer_accept e (OUpdateValueOwners vos proposed) signers = true /\
+    signers = [c] /\ is_wasm e c = true /\ ~ In (Some c) vos.
+Proof. exact update_value_owners_contract_literal_refuted. Qed.
+Print Assumptions C10_update_value_owners_contract_literal_refuted.
+
+Theorem C10_update_value_owners_first_signer_silences :
+  exists e vos proposed,
+    outer_accept e (OUpdateValueOwners vos proposed) [2; 3] = false /\
+    outer_accept e (OUpdateValueOwners vos proposed) [3; 2] = true /\
+    (forall o, In o vos -> exists a, o = Some a /\ a <> proposed /\ In a [2; 3]).
+Proof. exact update_value_owners_first_signer_silences. Qed.
+Print Assumptions C10_update_value_owners_first_signer_silences.
+
+(** ** The required parties are a SET.  BuildPartyDetails marks as required exactly the
+    (address, role) pairs of the non-optional entries of the required list — wherever they stand,
+    however often, and whatever optional entries of the same party stand before them ... *)
+Theorem C10_required_set : forall req avail k,
+  (exists d, In d (build_party_details req avail) /\ key d = k /\ d_opt d = false) <->
+  (exists p, In p req /\ p_opt p = false /\ pkey p = k).
+Proof. exact required_set_spec. Qed.
+Print Assumptions C10_required_set.
+
+(** ... and the answer of ValidateSignersWithParties depends on the required list only through
+    that set: in particular on neither the order in which scope owners, session parties and
+    previous-session parties are concatenated, nor on repetitions. *)
+Theorem C10_required_list_is_a_set : forall e req req' avail roles signers,
+  (forall k, In k (map pkey (filter (fun p => negb (p_opt p)) req)) <->
+             In k (map pkey (filter (fun p => negb (p_opt p)) req'))) ->
+  validate_signers_with_parties e req avail roles signers =
+  validate_signers_with_parties e req' avail roles signers.
+Proof. exact with_parties_reqset. Qed.
+Print Assumptions C10_required_list_is_a_set.
+
+Theorem C10_required_order_and_duplicates : forall e l1 l2 avail roles signers,
+  validate_signers_with_parties e (l1 ++ l2) avail roles signers =
+  validate_signers_with_parties e (l2 ++ l1) avail roles signers /\
+  validate_signers_with_parties e (l1 ++ l1) avail roles signers =
+  validate_signers_with_parties e l1 avail roles signers.
+Proof. exact with_parties_req_order_dup. Qed.
+Print Assumptions C10_required_order_and_duplicates.
+
+(** GetRequiredPartyAddresses (specification gone): the addresses of the non-optional entries. *)
+Theorem C10_required_addresses_set : forall ps a,
+  In a (required_party_addrs ps) <-> exists p, In p ps /\ p_opt p = false /\ p_addr p = a.
+Proof. exact required_party_addrs_set. Qed.
+Print Assumptions C10_required_addresses_set.
+
+(** OBSERVATION: the order of the AVAILABLE parties is observable (only) through a smart
+    contract that holds a grant. *)
+Theorem C10_available_order_observable :
+  exists e p1 p2 roles signers,
+    validate_signers_with_parties e [p1; p2] [p1; p2] roles signers = true /\
+    validate_signers_with_parties e [p2; p1] [p2; p1] roles signers = false.
+Proof. exact avail_order_observable. Qed.
+Print Assumptions C10_available_order_observable.
+
+(** ** What the model assumes about x/authz (Metadata/AuthzCount.v transcribes findAuthzGrantee
+    over a store that may hold count-limited authorizations).  If every stored authorization is
+    generic, then for whatever the per-message cache holds (as long as it is backed by the store)
+    the lookup returns exactly the model's [find_grantee] over the erased relation and the store is
+    unchanged. *)
+Theorem C10_generic_grants_assumption : forall st c m wasm granter grantees,
+  all_generic st -> cache_ok st c ->
+  exists c', find_grantee_c st c granter grantees (authz_urls m) =
+             (find_grantee (mk_env m wasm (raw_of st)) granter grantees, st, c') /\
+             cache_ok st c'.
+Proof. exact generic_store_is_relation. Qed.
+Print Assumptions C10_generic_grants_assumption.
+
+(** The assumption is needed: with one count-limited authorization the lookup consumes it, and the
+    same lookup by the next message finds nothing although the erased relation still grants. *)
+Theorem C10_count_limited_outside_model :
+  exists st granter grantees m,
+    let '(r1, st1, _) := find_grantee_c st [] granter grantees (authz_urls m) in
+    let '(r2, _, _) := find_grantee_c st1 [] granter grantees (authz_urls m) in
+    r1 = Some 2 /\ st1 <> st /\ r2 = None /\
+    find_grantee (mk_env m [] (raw_of st)) granter grantees = Some 2.
+Proof. exact counted_store_is_not_a_relation. Qed.
+Print Assumptions C10_count_limited_outside_model.
+
+(** A CountAuthorization with n uses stands in for exactly the first n of k identical messages
+    (what the count-limited evidence cases of the run are compared with). *)
+Theorem C10_count_n_messages : forall n k a b m, a <> b ->
+  messages k (st_n a b m n) a [b] m = repeat true (Nat.min k n) ++ repeat false (k - n).
+Proof. exact count_n_stands_for_n_messages. Qed.
+Print Assumptions C10_count_n_messages.
+
 (** Non-vacuity: scope owners 1 (CONTROLLER, required), 2 and 3 (SERVICER, optional), 4 (SERVICER,
     optional); two SERVICER signatures required; 1 and 2 sign, 3 has granted to 2's co-signer 7.
     Accepted; without the grant only one SERVICER is signing and it is rejected; the same party
@@ -158,4 +344,26 @@ Example C10_witness :
   validate_signers_with_parties e owners owners [2; 2] [2; 7] = false /\
   outer_accept e (OWriteRecord true owners owners (Some [ {| p_addr := 5; p_role := 5; p_opt := false |} ]) [2])
                [1; 2] = false.
+Proof. vm_compute. repeat split. Qed.
+
+(** Non-vacuity of the endpoint theorems: a rollup scope whose owners 1 (CONTROLLER, required) and
+    2 (SERVICER, optional) also appear in the session with the flags swapped and in the previous
+    session; record spec requires a SERVICER.  Signed directly by 1 and 2: accepted, the documented
+    hypotheses hold; without 2 (required in the session although optional in the scope): rejected.
+    Data access on the same scope; a value-owner update signed by both current value owners. *)
+Example C10_witness_endpoints :
+  let owners := [ {| p_addr := 1; p_role := 10; p_opt := false |};
+                  {| p_addr := 2; p_role := 2; p_opt := true |} ] in
+  let session := [ {| p_addr := 2; p_role := 2; p_opt := false |};
+                   {| p_addr := 1; p_role := 10; p_opt := true |} ] in
+  let old := [ {| p_addr := 2; p_role := 2; p_opt := true |} ] in
+  let e := {| e_wasm := [6]; e_grants := [] |} in
+  let op := OWriteRecord true owners session (Some old) [2] in
+  doc_direct e op [1; 2] = true /\ outer_accept e op [1; 2] = true /\
+  outer_accept e op [1] = false /\
+  outer_accept e (ODataAccess true owners (Some [2])) [1; 2] = true /\
+  outer_accept e (ODataAccess true owners (Some [2])) [1] = false /\
+  outer_accept e (OUpdateValueOwners [Some 3; Some 4; Some 3] 5) [3; 4] = true /\
+  outer_accept e (OUpdateValueOwners [Some 3; Some 4] 5) [3] = false /\
+  enforces_contract_rule op = true.
 Proof. vm_compute. repeat split. Qed.
